@@ -232,6 +232,12 @@ func (g *c20Gen) message(method string) proto.Message {
 			// A request that really creates an account (the write path of the account cache).
 			q = &pb.GenerateRequest{Account: []string{"Wallet1", "Empty"}[r.Intn(2)] + "/new" + fmt.Sprint(r.Intn(1000000)), Passphrase: []byte("pass"), Participants: 1, SigningThreshold: 1}
 		}
+		if r.Intn(12) == 1 {
+			// A distributed generation that really runs between the instances: fresh names, names that exist already
+			// (a small pool, so retries happen) and names the wallet refuses only when the account is stored.
+			name := []string{fmt.Sprintf("D/dist%d", r.Intn(6)), fmt.Sprintf("D/_under%d", r.Intn(1000)), fmt.Sprintf("D/dist%d", r.Intn(1000000)), "D/dist1/x"}[r.Intn(4)]
+			q = &pb.GenerateRequest{Account: name, Passphrase: []byte("pass"), Participants: 2, SigningThreshold: 2}
+		}
 		return q
 	case "/v1.WalletManager/Unlock":
 		return &pb.UnlockWalletRequest{Wallet: g.name(), Passphrase: hText(r)}
